@@ -608,6 +608,28 @@ def run(ctx: Ctx):
                   and any(A.dotted(t) == wv for t in n.ast.targets)]
             if not wd or ast.unparse(wd[0].ast.value).replace(" ", "") != f"self._answer_waiting[{key}]":
                 ctx.fail(cons + "#waiter", ra.loc(), "the waiter woken is not the one registered under the answer's id")
+            # once the waiter has been found, nothing can fail before it is woken: an exception
+            # there is swallowed by the node's receive handler, the sender times out although its
+            # answer has arrived, and the answer reaches nobody
+            from ..effects import effects_of
+            Er = effects_of(model)
+            gre = cfg_of(ra, effects=Er, inline=False)
+            sets_e = [n for n in gre.nodes if n.kind == "stmt" and any(
+                A.call_name(c).endswith(".event.set") for c in n.calls())]
+            wd_e = [n for n in gre.nodes if n.kind == "stmt" and isinstance(n.ast, ast.Assign)
+                    and any(A.dotted(t) == wv for t in n.ast.targets)]
+            ctx.inst(cons + "#nothing-raises-before-wake")
+            if sets_e and wd_e:
+                between = gre.reach([d for l, d in wd_e[0].succ if l != "exc"], blocked=sets_e,
+                                    skip_labels=("exc",))
+                for n in sorted((x for x in between if x.raises), key=lambda x: x.line):
+                    rs = sorted(n.raises)
+                    ctx.fail(cons + "#nothing-raises-before-wake", gre.loc(n),
+                             f"`{n.text(60)}` can raise {rs} between finding the waiter and waking it: the "
+                             f"exception ends receive_answer (the node's handler swallows it), the sending "
+                             f"thread's wait times out although the answer arrived in time, and "
+                             f"handle_answer is not called either ({'; '.join(Er.why_at(ra, rs[0], n.line))[:200]})")
+                    break
 
     # ---------------- R5 send_request ordering / pairing ----------------------------------------
     ctx.rule("C10-R5", "send_request: route, register the waiter before sending, wait with "
